@@ -1087,6 +1087,20 @@ def parse_debug_body(body, consts, where):
 def parse_ser_body(body, consts, where):
     ts = list(body)
     txt = norm(ts)
+    # if [!]serializer.is_human_readable() { A } else { B }     (recognised, and possibly NOT constant: the obligation decides)
+    if ts and ts[0].t == "if":
+        neg = ts[1].t == "!"
+        c = ts[2:] if neg else ts[1:]
+        if len(c) > 6 and c[0].k == "ident" and norm(c[1:5]) == ".is_human_readable()" and c[5].t == "{":
+            k1 = match_close(c, 5)
+            if k1 + 2 < len(c) and c[k1 + 1].t == "else" and c[k1 + 2].t == "{" and match_close(c, k1 + 2) == len(c) - 1:
+                a = parse_ser_body(c[6:k1], consts, where)
+                b2 = parse_ser_body(c[k1 + 3:-1], consts, where)
+                if a[0] == "str" and b2[0] == "str":
+                    human, binary = (b2[1], a[1]) if neg else (a[1], b2[1])
+                    return ("strIf", human, binary)
+        raise Unrecognised(f"{where}: Serialize body of SecretKey: conditional not of the shape "
+                           f"`if serializer.is_human_readable() {{…}} else {{…}}`: {txt}")
     # <str as Serialize>::serialize(X, serializer)
     if norm(ts[:7]) == "<str as Serialize>::serialize" and ts[7].t == "(" and match_close(ts, 7) == len(ts) - 1:
         args = split_top(ts[8:-1], ",")
@@ -1419,7 +1433,10 @@ def emit(model):
         body.append("def secretKeySerialize : Option SerBody := none")
     else:
         body.append("/-- body of `impl Serialize for SecretKey` -/")
-        body.append(f"def secretKeySerialize : Option SerBody := some (.str ({arg(sb[1])}))")
+        if sb[0] == "strIf":
+            body.append(f"def secretKeySerialize : Option SerBody := some (.strIf ({arg(sb[1])}) ({arg(sb[2])}))")
+        else:
+            body.append(f"def secretKeySerialize : Option SerBody := some (.str ({arg(sb[1])}))")
     body.append("")
     ph = model["consts"].get("PLACEHOLDER")
     body.append("/-- `const PLACEHOLDER: &str` of `auth/secret_key.rs` (empty if the constant is gone) -/")
